@@ -16,6 +16,8 @@ structure Grant where
   gid : Nat
   lk : Nat
   mode : Mode
+  /-- thread in whose quantum the grant began -/
+  tid : Nat := 0
   deriving Repr, DecidableEq
 
 /-- a blocking request on an MCS lock, for the arrival-order monitor (C11) -/
@@ -59,7 +61,7 @@ def compatibleWith (gs : List Grant) (gid lk : Nat) (m : Mode) : Bool :=
 def parseNat? (s : String) : Option Nat := s.toNat?
 
 /-- process one local-event token -/
-def stepTok (s : MonSt) (tok : String) : MonSt :=
+def stepTok (s : MonSt) (tok : String) (tid : Nat := 0) : MonSt :=
   if tok.startsWith "G+" then
     match (tok.drop 2).toString.splitOn ":" with
     | [g, l, m] =>
@@ -67,7 +69,7 @@ def stepTok (s : MonSt) (tok : String) : MonSt :=
       | some gid, some lk, some mode =>
         let s := if compatibleWith s.grants gid lk mode then s
                  else flag s s!"excl: grant {gid} mode {m} on lock {lk} conflicts with a live grant"
-        let gs := s.grants ++ [⟨gid, lk, mode⟩]
+        let gs := s.grants ++ [⟨gid, lk, mode, tid⟩]
         { s with grants := gs, nGrants := s.nGrants + 1, maxSimul := max s.maxSimul gs.length }
       | _, _, _ => flag s s!"malformed token {tok}"
     | _ => flag s s!"malformed token {tok}"
